@@ -92,7 +92,7 @@ Definition obs_of (names : list N) (st : gstate) : step_obs :=
 (** the real Pipeline objects of the traffic-controller harness cannot record calls *)
 Definition call_ent (c : call) : ent := match c with Init _ g => g | Inherit _ g _ => g | Close _ g => g end.
 Definition visible (grp : N) (c : call) : bool :=
-  if grp =? 1 then negb (is_pipe (call_ent c)) else true.
+  if negb (grp =? 0) then negb (is_pipe (call_ent c)) else true.
 
 Definition step_obs_eqb (grp : N) (a b : step_obs) : bool :=
   (if grp =? 0 then
@@ -102,13 +102,37 @@ Definition step_obs_eqb (grp : N) (a b : step_obs) : bool :=
      list_eqb ninst_eqb (so_gate a) (so_gate b) && list_eqb ninst_eqb (so_pipe a) (so_pipe b))
   && list_eqb ninst_eqb (so_sup a) (so_sup b).
 
+(** group 2: TrafficController's Apply API called directly (no registry, no watcher): every
+    snapshot the harness applies each wanted object and deletes the others, name by name *)
+Definition ap_map := N -> ap_state.
+
+Fixpoint apply_trace (pan : oracle) (order names : list N) (t : N) (cfgs : list (list (N * spec)))
+         (f : ap_map) (log : list entry) : list entry * list step_obs :=
+  match cfgs with
+  | [] => (log, [])
+  | l :: r =>
+      let '(f', log') :=
+        fold_left (fun '(f, lg) n =>
+                     let a := applier pan t n (cfg_of l n) (f n) in
+                     ((fun m => if m =? n then fst a else f m), lg ++ snd a))
+                  order (f, log) in
+      let o := {| so_reg := []; so_w0 := []; so_w1 := []; so_ev1 := []; so_sup := [];
+                  so_gate := rows names (fun n => fst (f' n)); so_pipe := rows names (fun n => snd (f' n)) |} in
+      let '(lg, os) := apply_trace pan order names (t + 1) r f' log' in
+      (lg, o :: os)
+  end.
+
 Definition model_run (q : quirks) (c : reg_case) : list entry * list step_obs :=
+  if k_grp c =? 2 then
+    apply_trace (pan_of (k_pan c)) (if N.testbit (k_sched c) 0 then rev (k_names c) else k_names c) (k_names c)
+                0 (k_steps c) (fun _ => (None, None)) []
+  else
   let steps := map (fun l => (sched_of (k_sched c) (k_names c), cfg_of l)) (k_steps c) in
   let tr := trace q (pan_of (k_pan c)) 0 steps init_state in
   (match rev tr with [] => [] | st :: _ => snd st end, map (obs_of (k_names c)) tr).
 
 Definition vis_log (grp : N) (l : list entry) : list entry :=
-  filter (fun e => visible grp (l_call e) && ((grp =? 1) || (l_who e =? 0))) l.
+  filter (fun e => visible grp (l_call e) && (negb (grp =? 0) || (l_who e =? 0))) l.
 
 Definition corr_with (q : quirks) (c : reg_case) : bool :=
   let '(ml, ms) := model_run q c in
